@@ -92,6 +92,42 @@ def second_round_rules(R):
         if not ok:
             R.viol("C09.pad.outdated", "newer-pad-refused", "a scratchpad with a strictly higher counter can still be refused as outdated: replicas holding different counters do not converge to the highest", pad, pad.lines[0])
         R.inst("C09.pad.outdated", "K4r reject-edge", "IgnoringOutdatedScratchpadPut only when local.count() >= new.count()", len(out), ok)
+    # (4b) the periodic replication arm of Node::run's event loop always triggers replication: from the arm of the `select!` dispatch
+    #      that leads to the spawn of try_interval_replication, the next loop iteration is not reachable without that spawn
+    run_bodies = [c for c in F.item("ant_node::node::Node::run") if c.kind == "closure" and c.coroutine]
+    okp, narm = False, 0
+    for rb in run_bodies:
+        prep(rb)
+        g = cfg_of(rb)
+        from rules import closures_passed
+        spawns = []
+        for blk in rb.blocks:
+            t = blk["term"]
+            if t["k"] == "call" and not blk["cleanup"] and (t.get("ncallee") or "").endswith("task::spawn::spawn"):
+                # the spawned future is an async block of this body: find the one that calls try_interval_replication
+                l = op_local(t["args"][0])
+                ty = rb.locals.get(str(l), "")
+                for c2 in F.item(rb.path):
+                    if c2.kind == "closure" and c2 is not rb and (":%d:" % c2.lines[0]) in ty and any((x["ncallee"] or "").endswith("::try_interval_replication") for x in c2.calls):
+                        spawns.append(blk["id"])
+        if not spawns:
+            continue
+        switches = [b for b in rb.blocks if b["term"]["k"] == "switch" and not b["cleanup"] and len(b["term"]["targets"]) >= 4]
+        for S in sorted(switches, key=lambda b: -len(b["term"]["targets"])):
+            arms = [d for _, d in S["term"]["targets"]] + [S["term"]["otherwise"]]
+            mine = [d for d in arms if set(spawns) & g.reach((d,), avoid={S["id"]})]
+            # the arm of the periodic tick is the one whose *every* path spawns it (the other spawn sites sit in event-handling arms)
+            for d in mine:
+                if S["id"] not in g.reach((d,), avoid=set(spawns)) or True:
+                    pass
+            if mine:
+                narm = len(mine)
+                okp = any(S["id"] not in g.reach((d,), avoid=set(spawns)) for d in mine)
+                break
+    if run_bodies:
+        if not okp:
+            R.viol("C09.periodic", "periodic-skipped", "no arm of Node::run's event loop triggers try_interval_replication unconditionally: the periodic re-advertisement can be skipped (records that missed a push are never advertised again)", run_bodies[0], run_bodies[0].lines[0])
+        R.inst("C09.periodic", "K5 must-follow", "the periodic arm of Node::run always spawns try_interval_replication", narm, okp)
     # (5) the responsible range set on the fetcher is exactly the range given (rule of C08, evaluated here: keys in range must be accepted)
     from props.C08 import liveness_rules
     liveness_rules(R, "C09.fetcher")
